@@ -112,10 +112,19 @@ def relion_df_from_rin(rin, innames, v, px, rng, with_px_column):
     return pd.DataFrame(data, columns=order)
 
 
-def independent_relion_file(path, df, v, px, rng, optics):
+def independent_relion_file(path, df, v, px, rng, optics, groups=None):
+    """groups: {optics group id: pixel size} - a merged list with several optics groups (rows carry rlnOpticsGroup)."""
     with open(path, "w") as fh:
         fh.write("# RELION input written by the C03 driver\n")
-        if optics and v >= 31:
+        if groups and v >= 31:
+            fh.write("\ndata_optics\n\nloop_\n_rlnOpticsGroup #1\n_rlnOpticsGroupName #2\n_rlnImagePixelSize #3\n")
+            ids = list(groups)
+            if rng.random() < 0.5:
+                ids.reverse()
+            for gid in ids:
+                fh.write("%d opticsGroup%d %r\n" % (gid, gid, groups[gid]))
+            fh.write("\n")
+        elif optics and v >= 31:
             fh.write("\ndata_optics\n\nloop_\n_rlnOpticsGroup #1\n_rlnOpticsGroupName #2\n_rlnImagePixelSize #3\n")
             fh.write("1 opticsGroup1 %r\n\n" % px)
         fh.write("\n%s\n\nloop_\n" % ("data_particles" if v >= 31 else "data_"))
@@ -428,6 +437,8 @@ class Runner:
             elif ok:
                 subsets = [1 if b["geom3"] % 2 == 1 else 2 for b in case["back"]]       # of the rows that were exported
                 self.traces.append(({"kind": "ids", "ids": ids, "subsets": subsets}, case, sig, "re-imported ids %s" % ids[:12]))
+        elif op == "import" and cs.get("pxs"):
+            self.mixed_px_case(case, cs, v, rng, variant, sig)
         elif op == "import":
             with_px = variant % 2 == 0
             rdf = relion_df_from_rin(cs["rin"], case["innames"], v, px, rng, with_px)
@@ -488,6 +499,48 @@ class Runner:
             self.orig_case(case, cs, op, v, px, rng, variant, sig)
         else:
             raise core.MachineryError("unknown op %r" % op)
+
+    def mixed_px_case(self, case, cs, v, rng, variant, sig):
+        """A merged list: the pixel size varies from particle to particle and is taken from the DATA (never passed): as an
+        rlnPixelSize column (table or file) or through several optics groups (file, or optics_data= with a table)."""
+        import pandas as pd
+        from cryocat import cryomotl
+        ctx = self.ctx
+        pxs = [p[0] / p[1] for p in cs["pxs"]]
+        rdf = relion_df_from_rin(cs["rin"], case["innames"], v, pxs[0], rng, False)
+        form = ["column", "column_file", "optics2", "optics2_table"][variant % 4]
+        if v < 31 and form.startswith("optics2"):
+            form = "column"                          # 3.0 has no optics block (and no division by the pixel size)
+        sig = dict(sig, pxform=form)
+        gid = {}
+        for p in pxs:
+            gid.setdefault(p, len(gid) + 1)
+        groups = {g: p for p, g in gid.items()}
+        if form.startswith("column"):
+            rdf["rlnPixelSize"] = pxs
+        else:
+            rdf["rlnOpticsGroup"] = [gid[p] for p in pxs]
+        table = motlutil.vary_index(rdf, variant // 4)
+
+        def call():
+            if form == "column":
+                return api_import(table, v, pxs[0], variant // 4, explicit_px=False)
+            if form == "optics2_table":
+                optics = pd.DataFrame({"rlnOpticsGroup": list(groups), "rlnOpticsGroupName": ["g%d" % g for g in groups],
+                                       "rlnImagePixelSize": [groups[g] for g in groups]})
+                return cryomotl.RelionMotl(table, version=VERSION[v], optics_data=optics).df
+            path = os.path.join(ctx.workdir, "rmix_%d.star" % os.getpid())
+            independent_relion_file(path, rdf, v, pxs[0], rng, optics=False, groups=groups if form == "optics2" else None)
+            if (variant // 4) % 2 == 0:
+                return cryomotl.RelionMotl(path).df
+            return cryomotl.relion2emmotl(path).df
+        back, err = core.call_guarded(call)
+        if err is not None:
+            self.fail("call_raises", "import of a list with per-particle pixel sizes (%s): %s" % (form, err), case, sig)
+            return
+        self.compare_rows(project_motl(back)[0], case["back"], ["x", "s", "R", "tomo", "cls", "geom3"],
+                          lambda f: "C03_ImportPose" if f in ("x", "s", "R") else "C03_Identity", case, sig,
+                          "list imported with per-particle pixel sizes (%s)" % form)
 
     def orig_case(self, case, cs, op, v, px, rng, variant, sig):
         """import RELION data -> clean / re-order the list -> export with use_original_entries=True (-> import again):
@@ -635,12 +688,32 @@ def gen_case(rng, n):
     px = rng.choice(PX)
     fmt = gen_fmt(rng, v)
     mode = rng.choice(["export", "export", "import", "orig"])
+    # a merged list: two or three pixel sizes within one table, taken from the data per particle
+    mixed_px = mode == "import" and rng.random() < 0.35
+    pxpool = [list(px)] + [list(q) for q in rng.sample([q for q in PX if q != px], rng.randint(1, 2))]
+    pxs = []
     sids = rng.sample(range(1, 20 * n + 50), n)
     if rng.random() < 0.25:
         sids = [2 * s for s in sids] if rng.random() < 0.5 else [2 * s + 1 for s in sids]      # a single half-set
     ntomo = rng.randint(1, 6) if rng.random() < 0.5 else min(n, 60)
     tomos = sorted(rng.sample(range(1, 90), ntomo))
     clspool = rng.sample(range(1, 3 * n + 10), n)
+    # identifier values: 0, the length of the list, large consecutive numbers (tomogram, subtomogram, class numbers)
+    k = rng.random()
+    if k < 0.15:
+        sids = [100000 + i for i in range(n)]
+        if rng.random() < 0.5:
+            rng.shuffle(sids)
+    elif k < 0.3 and n >= 2:
+        sids = [s_ for s_ in sids if s_ not in (0, n)][:n - 2] + [0, n]
+        rng.shuffle(sids)
+    k = rng.random()
+    if k < 0.15:
+        tomos = [100000 + i for i in range(ntomo)]
+    elif k < 0.3:
+        tomos = sorted(set(tomos[:-1] + [0])) if ntomo > 1 else [0]
+    if rng.random() < 0.2:
+        clspool[rng.randrange(n)] = 0
     # one field group of the whole list all-equal / all-zero while the others are not: 1 class all equal, 2 all angles zero,
     # 3 all shifts / origins zero (positions stay non-integer)
     flat = rng.choice([0, 0, 0, 0, 1, 2, 3, 3])
@@ -655,10 +728,16 @@ def gen_case(rng, n):
             base.update({"x": pos, "s": [0, 0, 0] if flat == 3 else [rng.randint(-48, 48) for _ in range(3)]})
         else:
             ks = [0, 0, 0] if flat == 3 else [rng.randint(-48, 48) for _ in range(3)]
-            origin = [[k * px[0], U * px[1]] if v >= 31 else [k, U] for k in ks]
+            pxi = rng.choice(pxpool) if mixed_px else list(px)
+            if mixed_px and i < len(pxpool):
+                pxi = pxpool[i]                        # every pixel size of the pool occurs (lists of 1 row stay single)
+            pxs.append(pxi)
+            origin = [[k * pxi[0], U * pxi[1]] if v >= 31 else [k, U] for k in ks]
             base.update({"coord": pos, "origin": origin, "subset": 1 if sids[i] % 2 == 1 else 2})
         rows.append(base)
     c = {"mode": mode, "v": v, "px": list(px), "fmt": fmt}
+    if mode == "import" and mixed_px and n >= 2:
+        c["pxs"] = pxs
     c["parts" if mode == "export" else "rin"] = rows
     if mode in ("export", "orig"):
         c["hist"] = [h for h in gen_hist(rng, [r["cls"] for r in rows]) if not (flat == 1 and h["op"] == "remove")] if flat != 1 else \
@@ -926,7 +1005,7 @@ def run(ctx):
         ctx.exhaustive["L1_scope"] = True
         # a re-import transition does not carry the case: index the export transitions by their case
         keyed = sorted(trs, key=lambda t: core.stable_hash([ctx.seed, t["cs"], t["op"]]))
-        chosen = keyed[:ctx.pick(800, 24000)]
+        chosen = keyed[:ctx.pick(650, 24000)]
         ctx.exhaustive["L2_transitions"] = len(chosen) == len(keyed)
         ctx.extra["transitions_emitted"] = len(trs)
         ctx.extra["transitions_replayed"] = len(chosen)
@@ -951,7 +1030,7 @@ def run(ctx):
     if want("float"):
         rng = ctx.rng
         if ctx.quick:
-            sizes = [rng.randint(1, 8) for _ in range(70)] + [rng.randint(9, 80) for _ in range(8)] + [300]
+            sizes = [rng.randint(1, 8) for _ in range(55)] + [rng.randint(9, 80) for _ in range(6)] + [300]
         else:
             sizes = [rng.randint(1, 8) for _ in range(1000)] + [rng.randint(9, 300) for _ in range(90)] + [300] * 6
         cases = [gen_float_case(rng, i + 1, n) for i, n in enumerate(sizes)]
